@@ -2,14 +2,30 @@
 import wlcheck
 
 PID = 'C13'
-TAGS = set('files,layout'.split(','))
-THEOREMS = []
+TAGS = set('files,layout,liveiter,conforms,conformsdel'.split(','))
+THEOREMS = [
+    'Lcdb.C13.never_delete_live',
+    'Lcdb.C13.never_delete_needed_log',
+    'Lcdb.C13.never_delete_current_manifest',
+    'Lcdb.C13.never_delete_fixed',
+    'Lcdb.C13.never_delete_foreign',
+    'Lcdb.C13.pending_protects',
+    'Lcdb.C13.bg_error_suspends',
+    'Lcdb.C13.no_garbage',
+    'Lcdb.C13.no_garbage_owned',
+    'Lcdb.C13.removeObsolete_idempotent',
+    'Lcdb.C13.numbers_fresh',
+    'Lcdb.C13.new_numbers_strictly_increasing',
+    'Lcdb.C13.disciplined_numbers_fresh',
+    'Lcdb.C13.handed_out_twice_needs_reuse',
+    'Lcdb.C13.mark_above',
+]
 IMPORTS = ['LcdbModel.Props.C13']
 TARGETS = ['LcdbModel.Props.C13']
 
 
 def run(tier):
-    return wlcheck.run(PID, tier, TAGS, THEOREMS, IMPORTS, TARGETS)
+    return wlcheck.run(PID, tier, TAGS, THEOREMS, IMPORTS, TARGETS, journal=True)
 
 
 def replay(path):
